@@ -94,21 +94,17 @@ def scen_bw(env, cfg):
     x, S, N = _field(env, n, pol, True)
     G = env.real('G', 0, 40)
     NF = env.real('NF', 3, 10)
-    BW = env.const(cfg['BW'])
+    BW = env.num(cfg['BW'])
+    np = env.np
+    # the same ASE realisation twice: np.random.seed(s) restarts the draw stream (seed-replayed stubs / feeder)
+    np.random.seed(11)
     y = D.EDFA(x, G, NF, BW=BW)
-    # same draws again: the stubs are deterministic in the draw index, so rebuild the unfiltered output with the same realisation
-    if env.impl == 'model':
-        from vf.core import ctx
-        ev = ctx().events
-        marks = [i for i, e in enumerate(ev) if e[0] == 'draw']
-        for i in marks:
-            ev[i] = ('draw-used', ev[i][1])
-    else:
-        env._replay_reset_draws()
+    np.random.seed(11)
     u = D.EDFA(x, G, NF)
     f = D.BPF(u, BW)
     env.check('EDFA(x, BW) == BPF(EDFA(x), BW) for the same ASE realisation: signal', env.eqs(y.signal, env.items(f.signal), scale=1e3))
-    env.check('... and noise', env.eqs(y.noise, env.items(f.noise), scale=1e3))
+    env.check('... and noise (the whole output is band-limited by the same optical filter)', env.eqs(y.noise, env.items(f.noise), scale=1e3))
+    env.check('two-polarisation output of the input length', y.n_pol == 2 and y.signal.shape == (2, n))
 
 
 def configs(tier):
@@ -125,4 +121,7 @@ def configs(tier):
         for noise in (False, True):
             out.append((f'edfa-realfield-pol{pol}-{"noise" if noise else "clean"}', scen_edfa, dict(n=1, pol=pol, noise=noise, vtype='float'), {}))
     out.append(('edfa-types', scen_types, {}, {}))
+    for pol in ((1,) if q else (1, 2)):
+        for bw in ((0.5e9,) if q else (0.2e9, 0.5e9, 0.8e9)):
+            out.append((f'edfa-bw{bw:g}-pol{pol}', scen_bw, dict(n=17, pol=pol, BW=bw), {'validate': 1}))
     return out
